@@ -22,6 +22,17 @@ CHECKS = {
     technique="TLA+ spec (Grid) model-checked by TLC + replay of every TLC state into uspg_3d/uspg_4d + TLC trace validation (GridTrace)"),
 }
 
+CHECKS["C05"] = dict(
+    category="model_checking", design_ref="DESIGN.md §C05, §3.3",
+    text="The seven branches of the kernel are transcribed into TLA+ over the integer lattice (spec/ClosestPoint); TLC checks, for every "
+         "non-degenerate triangle and query point of the box, that the answer satisfies the contract (barycentrics >= 0 summing to one, "
+         "KKT optimality of the designated point, d2 = |p-q|^2) and is invariant under the 24 lattice rotations and under translations. "
+         "TLC's state dump is the table of exact rational answers that is replayed into the real static function at six scales/positions "
+         "in space and under random lattice rotations.",
+    note="Inputs on the lattice (all branch predicates exact in IEEE doubles); degenerate triangles excluded as in the property; "
+         "comparison tolerances 1e-9 (barycentrics) and 1e-9 relative + rounding allowance (d2).",
+    technique="TLA+ transcription of the kernel model-checked by TLC (contract + invariances) + replay of every enumerated case into compute_node_triangle_distance")
+
 PENDING = {}   # property id -> reason (filled below for everything not in CHECKS)
 NOT_APPLICABLE = {
  "C10": "memory safety / undefined behaviour has no representation in a TLA+ state (no addresses, lifetimes or indeterminate values); "
